@@ -79,6 +79,7 @@ func c05split(s string, mode string) []string {
 }
 
 type c05cfg struct {
+	logger bool // client with the traffic logger on (reads go through streamLogger)
 	comp bool
 	sm   bool
 	seg  string
@@ -111,6 +112,15 @@ func c05body(cfg c05cfg, first []int, maxLen int) func() {
 			s := newSess(sessOpts{sm: cfg.sm, smResume: cfg.sm, keepalive: 3600})
 			if s.cl == nil {
 				return
+			}
+			if cfg.logger {
+				f, err := os.CreateTemp("", "verif-c05-*.log")
+				if err != nil {
+					vrt.Fail("C05|harness|tempfile", "%v", err)
+					return
+				}
+				defer func() { f.Close(); os.Remove(f.Name()) }()
+				s.cl.transport.LogTraffic(f)
 			}
 			routed, sc, connect = &s.routed, func() *srvConn { return s.conn(0) }, s.cl.Connect
 		}
@@ -248,6 +258,12 @@ func TestVerifC05(t *testing.T) {
 				for _, drop := range []bool{false, true} {
 					for a := range c05alphabet {
 						cfg := c05cfg{comp: comp, sm: sm, seg: seg, size: sizes[0], drop: drop}
+						if !comp && !sm && (seg == "whole" || seg == "halves") {
+							lc := cfg
+							lc.logger = true
+							scs = append(scs, hx.Scenario{Name: fmt.Sprintf("logger/seg=%s/drop=%v/first=%s", seg, drop, c05alphabet[a].name),
+								Opt: vrt.Options{Bound: bound, Horizon: 100000}, Body: c05body(lc, []int{a}, maxLen), Verdict: c05verdict(lc)})
+						}
 						scs = append(scs, hx.Scenario{Name: fmt.Sprintf("comp=%v/sm=%v/seg=%s/drop=%v/first=%s", comp, sm, seg, drop, c05alphabet[a].name),
 							Opt: vrt.Options{Bound: bound, Horizon: 100000}, Body: c05body(cfg, []int{a}, maxLen), Verdict: c05verdict(cfg)})
 					}
